@@ -144,7 +144,11 @@ CallBuiltin(P, m, callee, n) ==
                       ELSE LET r0 == NewArr(m.h, ArrElems(m.h, a) \o items) IN
                            IF a.imm THEN r0 ELSE Ok([r0.h EXCEPT !.pairs = @ \cup {<<a.sid, r0.v.sid>>}], r0.v))
            ELSE S!Builtin([h |-> m.h], callee.name, args)
-  IN IF r.ok THEN Adv(Push(WithH(m1, r.h), r.v))
+      \* copy(f) of a compiled function is a new function object over the same code and the same cells
+      \* (CompiledFunction.Copy): it matters to self-tail-call detection, which compares objects
+      fcopy == callee.name = "copy" /\ n = 1 /\ args[1].k = "func"
+  IN IF fcopy THEN Adv(Push([m1 EXCEPT !.nclos = @ + 1], CFunc(args[1].fn, args[1].free, m.nclos + 1)))
+     ELSE IF r.ok THEN Adv(Push(WithH(m1, r.h), r.v))
      ELSE IF r.kind = "excluded" THEN Excl(m, r.why) ELSE Fail(m1, r.kind)
 
 \* ---- one instruction -----------------------------------------------------------------------
